@@ -327,4 +327,81 @@ theorem pick_closest (P vN dlo dhi D D' : Nat) (hP : 0 < P) (h : dlo ≤ dhi)
         · have := mD'1 c; omega
         · have := mD'2 c; omega
 
+theorem closestIn_closest (iv : Interval) (E : Int) (dlo dhi P Q : Nat)
+    (hPQ : scalePQ iv.e2 E = (P, Q)) (hP : 0 < P) (h : dlo ≤ dhi) (D D' : Nat)
+    (hD : D ∈ closestIn iv E dlo dhi) (h1 : dlo ≤ D') (h2 : D' ≤ dhi) :
+    (D * P - iv.v * Q) + (iv.v * Q - D * P) ≤ (D' * P - iv.v * Q) + (iv.v * Q - D' * P) := by
+  unfold closestIn at hD
+  simp only [hPQ] at hD
+  exact pick_closest P (iv.v * Q) dlo dhi D D' hP h hD h1 h2
+
+theorem shortestGo_mem2 (iv : Interval) (fuel : Nat) (E0 : Int) (D : Nat) (E : Int)
+    (h : (D, E) ∈ shortestGo iv fuel E0) :
+    (candRange iv E).1 ≤ (candRange iv E).2 ∧
+      D ∈ closestIn iv E (candRange iv E).1 (candRange iv E).2 := by
+  induction fuel generalizing E0 with
+  | zero => simp [shortestGo] at h
+  | succ n ih =>
+    unfold shortestGo at h
+    simp only [] at h
+    split at h
+    · rename_i hle
+      obtain ⟨d, hd, he⟩ := List.mem_map.mp h
+      simp only [Prod.mk.injEq] at he
+      obtain ⟨rfl, rfl⟩ := he
+      exact ⟨hle, hd⟩
+    · exact ih _ h
+
+theorem abs_natCast_sub (a b : ℕ) : |(a : ℚ) - (b : ℚ)| = (((a - b) + (b - a) : ℕ) : ℚ) := by
+  rcases le_total a b with h | h
+  · have hq : (a : ℚ) ≤ b := by exact_mod_cast h
+    rw [abs_of_nonpos (by linarith), Nat.sub_eq_zero_of_le h, Nat.zero_add, Nat.cast_sub h]; ring
+  · have hq : (b : ℚ) ≤ a := by exact_mod_cast h
+    rw [abs_of_nonneg (by linarith), Nat.sub_eq_zero_of_le h, Nat.add_zero, Nat.cast_sub h]
+
+/-- among the round-tripping decimals with the same (maximal) exponent, the returned `D` is nearest
+to the exact value of `b` -/
+theorem shortest_closest' {f : Fmt} (hf : WF f) {b : Nat} (hb0 : 0 < b) (hb : b < f.infBits)
+    {D : Nat} {E : Int} (h : (D, E) ∈ shortest f b) {D' : Nat}
+    (hrt : roundNE f (decFrac D' E).1 (decFrac D' E).2 = b) :
+    |(D : ℚ) * (10 : ℚ) ^ E - ((f.decode b).m : ℚ) * (2 : ℚ) ^ (f.decode b).e| ≤
+      |(D' : ℚ) * (10 : ℚ) ^ E - ((f.decode b).m : ℚ) * (2 : ℚ) ^ (f.decode b).e| := by
+  have hD1 : 1 ≤ D' := by
+    by_contra h0
+    have : D' = 0 := by omega
+    subst this
+    rw [decFrac_eq] at hrt
+    simp only [Nat.zero_mul] at hrt
+    rw [roundNE_zero] at hrt
+    omega
+  rw [shortest_eq] at h
+  obtain ⟨hle, hmem⟩ := shortestGo_mem2 _ _ _ _ _ h
+  obtain ⟨c1, c2⟩ := cand_complete hf hb0 hb hD1 hrt
+  have hPQ := scalePQ_eq (interval f b).e2 E
+  obtain ⟨an_pos, ad_pos⟩ := binFrac_pos (interval f b).e2
+  obtain ⟨tn_pos, td_pos⟩ := tenFrac_pos E
+  have key := closestIn_closest _ E _ _ _ _ hPQ (Nat.mul_pos tn_pos ad_pos) hle D D' hmem c1 c2
+  have hbin := binFrac_Q (interval f b).e2
+  have hten := tenFrac_Q E
+  obtain ⟨k, q, hbk, h1, h2, hdec, _⟩ := decode_kq hf hb
+  have hv : (interval f b).v = 4 * (f.decode b).m := rfl
+  have he2 : (interval f b).e2 = (f.decode b).e - 2 := rfl
+  rw [hv] at key
+  have hexp : (2 : ℚ) ^ (f.decode b).e = 4 * (2 : ℚ) ^ (interval f b).e2 := by
+    rw [he2, zpow_sub₀ (by norm_num : (2 : ℚ) ≠ 0)]; norm_num; ring
+  rw [hexp, ← hten, ← hbin]
+  generalize (f.decode b).m = m at *
+  generalize (binFrac (interval f b).e2).1 = an at *
+  generalize (binFrac (interval f b).e2).2 = ad at *
+  generalize (tenFrac E).1 = tn at *
+  generalize (tenFrac E).2 = td at *
+  have adQ : (0 : ℚ) < ad := by exact_mod_cast ad_pos
+  have tdQ : (0 : ℚ) < td := by exact_mod_cast td_pos
+  have r : ∀ X : ℕ, (X : ℚ) * ((tn : ℚ) / td) - (m : ℚ) * (4 * ((an : ℚ) / ad))
+      = (((X * (tn * ad) : ℕ) : ℚ) - ((4 * m * (an * td) : ℕ) : ℚ)) / (td * ad) := by
+    intro X; push_cast; field_simp
+  rw [r D, r D', abs_div, abs_div, abs_natCast_sub, abs_natCast_sub]
+  apply div_le_div_of_nonneg_right _ (abs_nonneg _)
+  exact_mod_cast key
+
 end LexVerif.Proof.RoundNE
